@@ -44,12 +44,33 @@ def manifestOf (a : Json) : Manifest :=
 def manifestJson (m : Manifest) : Json :=
   Json.mkObj [("version", ofPy m.version), ("compose", ofPy (.dict m.compose)), ("payload", ofPy m.payload)]
 
+/-- one call of a history: `add` (default) or one of the read-only operations driven between the adds -/
+def callStep (k : Kind) (s : PyVal) (j : Json) : PyVal × Json :=
+  let call := getStrD j "call"
+  if call == "dump_for_tree".toList then
+    let r := ExtraFiles.dumpForTreeS s (getStrD j "variant") (getStrD j "arch") (getStrD j "basepath")
+    (r.1, exceptJson jstr r.2)
+  else if call == "getitem".toList then
+    let r := getVariant s (getStrD j "variant")
+    (r.1, exceptJson ofPy r.2)
+  else if call == "dumps".toList then
+    let r := dumps k { Manifest.init with payload := s }
+    (r.1.payload, exceptJson jstr r.2)
+  else
+    let r := step s (addOp k j)
+    (r.1, outJson r.2)
+
+def callTrace (k : Kind) : PyVal → List Json → List Json
+  | _, [] => []
+  | s, j :: rest =>
+    let r := callStep k s j
+    Json.mkObj [("out", r.2), ("state", ofPy r.1)] :: callTrace k r.1 rest
+
 def ops : List (String × (Json → Json)) :=
   [("bld_trace", fun a =>
       let k := kindOf (getStrD a "kind")
       let init := match a.getObjVal? "init" with | .ok j => toPy j | _ => Mf.empty
-      let steps := trace init ((getArr a "ops").map (addOp k))
-      Json.arr (steps.map fun r => Json.mkObj [("out", outJson r.2), ("state", ofPy r.1)]).toArray),
+      Json.arr (callTrace k init (getArr a "ops")).toArray),
    ("bld_dumps", fun a =>
       let r := dumps (kindOf (getStrD a "kind")) (manifestOf a)
       Json.mkObj [("version_after", ofPy r.1.version), ("out", exceptJson jstr r.2)]),
